@@ -311,9 +311,12 @@ open World
     NoLeak (w.blockOnStage c f mode) := by
   unfold World.blockOnStage; noleak
 
-@[noleak] theorem wakeStage_noLeak (w : World) (c : TCtl) (f : Nat) (b : Bool) :
-    NoLeak (w.wakeStage c f b) := by
+@[noleak] theorem wakeStage_noLeak (w : World) (c : TCtl) (f : Nat) (b : Bool) (store : Bool) :
+    NoLeak (w.wakeStage c f b store) := by
   unfold World.wakeStage; noleak
+
+@[noleak] theorem awTakeStage_noLeak (w : World) (c : TCtl) (f : Nat) : NoLeak (w.awTakeStage c f) := by
+  unfold World.awTakeStage; noleak
 
 theorem dropPass_noLeak (w : World) (c : TCtl) (base : Nat) (done : World → Except Panic World)
     (hd : ∀ w, NoLeak (done w)) : NoLeak (w.dropPass c base done) := by
